@@ -208,3 +208,58 @@ func c20Build(p *Program, r *Report) {
 }
 
 func init() { checks["C20"] = checkC20 }
+
+func controlC20(fx *Program, r *Report) {
+	pkg := fx.FxPkg("aliasing")
+	if pkg == nil {
+		r.Control("C20", "fixtures/aliasing", false, "fixture package not loaded")
+		return
+	}
+	for _, tc := range []struct {
+		m    string
+		want bool
+	}{{"LoadZeroCopy", true}, {"LoadInPlace", true}, {"LoadCopy", false}} {
+		f := fx.Method(pkg, "T", tc.m)
+		if f == nil {
+			r.Control("C20.load", "aliasing."+tc.m, false, "method not found")
+			continue
+		}
+		a := newPts(fx)
+		a.tracked = func(o *aobj) bool { return o.kind == kParam }
+		st := &aobj{kind: kRoot, name: "ST"}
+		buf := a.seedObj(kParam, "BUF")
+		a.reachFn(f)
+		a.add(f.Params[0], st)
+		a.add(f.Params[1], buf)
+		a.solveWithClosures()
+		retained := false
+		a.reachableObjs(oset{st: true}, func(o *aobj, _ string) bool {
+			if o == buf {
+				retained = true
+				return false
+			}
+			return true
+		})
+		got := len(a.writes) > 0 || retained
+		r.Control("C20.load", "aliasing."+tc.m, got == tc.want, fmt.Sprintf("expected flagged=%v: %d write(s) to BUF, retained=%v", tc.want, len(a.writes), retained))
+	}
+	for _, tc := range []struct {
+		fn   string
+		want bool
+	}{{"BuildSorting", true}, {"BuildNormalizing", true}, {"BuildClean", false}} {
+		f := pkg.Func(tc.fn)
+		if f == nil {
+			r.Control("C20.build", "aliasing."+tc.fn, false, "function not found")
+			continue
+		}
+		a := newPts(fx)
+		a.tracked = func(o *aobj) bool { return o.kind == kParam }
+		a.reachFn(f)
+		a.add(f.Params[0], a.seedObj(kParam, "KEYS"))
+		a.add(f.Params[1], a.seedObj(kParam, "OPTS"))
+		a.solveWithClosures()
+		r.Control("C20.build", "aliasing."+tc.fn, (len(a.writes) > 0) == tc.want, fmt.Sprintf("expected flagged=%v: %d write(s) to caller memory", tc.want, len(a.writes)))
+	}
+}
+
+func init() { controlFns["C20"] = controlC20 }
